@@ -631,14 +631,34 @@ var _ uuid.UUID
 //@ at go searchPartitionsOnNode
 //@ set spawned = spawned + 1
 //@ end
+// content of the answer, stated for an arbitrary fixed received item: theItem at position theIdx of the theMsg-th message.
+// Once received (got == 1) it sits at position gPos of the candidate list; it is still a candidate when the list is sorted;
+// and it is either in the answer or no better than anything in the answer.
+//@ ghost theItem index.SearchResultItem = any
+//@ ghost theMsg int = any
+//@ ghost theIdx int = any
+//@ ghost got int = 0
+//@ ghost gPos int = 0
+//@ ghost totalItems int = 0
 //@ at recv local:resultCh
+//@ assume [a received list was built by a worker: it does not share memory with this call's own candidate list, which never leaves the function before it is returned] len(result) == 0 || $recv.ref != result.ref
 //@ set real = real + ite($ok, 1, 0)
+//@ set got = ite($ok && real == theMsg && 0 <= theIdx && theIdx < len($recv) && $recv[theIdx] == theItem, 1, got)
+//@ set gPos = ite($ok && real == theMsg && 0 <= theIdx && theIdx < len($recv) && $recv[theIdx] == theItem, len(result) + theIdx, gPos)
+//@ set totalItems = totalItems + ite($ok, len($recv), 0)
 //@ end
 //@ at recv local:errorCh
 //@ assume [protocol: workers send only non-nil errors] $ok ==> !isnil($recv)
 //@ end
+//@ at call sort.Sort
+//@ requires [C09 every-received-item-is-a-candidate] got == 1 ==> 0 <= gPos && gPos < len(result) && result[gPos] == theItem
+//@ requires [C09 candidates-are-what-was-received] len(result) == totalItems
+//@ assume [sort.Sort permutes its argument (it only swaps elements): an item present before the call is present after it] got == 1 ==> exists j int :: 0 <= j && j < len(result) && result[j] == theItem
+//@ end
 //@ noclose resultCh errorCh
 //@ requires [wf] wfDataset(this) && !isnil(ctx) && k <= 4294967295
+//@ ensures [C09 k-best-of-what-was-received] isnil(ret1) && got == 1 ==> (exists j int :: 0 <= j && j < len(ret0) && ret0[j] == theItem) || (forall j int :: 0 <= j && j < len(ret0) ==> !(theItem.Score < ret0[j].Score))
+//@ ensures [C09 as-many-as-possible] isnil(ret1) ==> len(ret0) == minInt(k, totalItems)
 //@ ensures [all-consulted] isnil(ret1) ==> real == spawned
 //@ ensures [never-nil-nil] isnil(ret1) ==> !isnil(ret0)
 //@ ensures [atmostk] isnil(ret1) ==> len(ret0) <= k
@@ -648,6 +668,7 @@ var _ uuid.UUID
 //@ invariant [spawned] spawned == $count && real == 0
 //@ loop 2
 //@ invariant [consumed] real == i && 0 <= i && i <= len(nodePartitions) && spawned == len(nodePartitions) && fresh(result)
+//@ invariant [C09 candidates-so-far] totalItems >= 0 && len(result) == totalItems && (got == 0 || got == 1) && (got == 1 ==> 0 <= gPos && gPos < len(result) && result[gPos] == theItem)
 
 // the schedule hook of the replay harness is a no-op for every property
 //@ func storage.verifPause
@@ -671,14 +692,32 @@ var _ uuid.UUID
 //@ requires [C12 worker-pre] searchable($arg2)
 //@ set spawned = spawned + 1
 //@ end
+// content of the answer for an arbitrary fixed received item (see Search)
+//@ ghost theItem index.SearchResultItem = any
+//@ ghost theMsg int = any
+//@ ghost theIdx int = any
+//@ ghost got int = 0
+//@ ghost gPos int = 0
+//@ ghost totalItems int = 0
 //@ at recv local:resultCh
+//@ assume [a received list was built by a worker: it does not share memory with this call's own candidate list, which never leaves the function before it is returned] len(result) == 0 || $recv.ref != result.ref
 //@ set real = real + ite($ok, 1, 0)
+//@ set got = ite($ok && real == theMsg && 0 <= theIdx && theIdx < len($recv) && $recv[theIdx] == theItem, 1, got)
+//@ set gPos = ite($ok && real == theMsg && 0 <= theIdx && theIdx < len($recv) && $recv[theIdx] == theItem, len(result) + theIdx, gPos)
+//@ set totalItems = totalItems + ite($ok, len($recv), 0)
 //@ end
 //@ at recv local:errorCh
 //@ assume [protocol: workers send only non-nil errors] $ok ==> !isnil($recv)
 //@ end
+//@ at call sort.Sort
+//@ requires [C09 every-received-item-is-a-candidate] got == 1 ==> 0 <= gPos && gPos < len(result) && result[gPos] == theItem
+//@ requires [C09 candidates-are-what-was-received] len(result) == totalItems
+//@ assume [sort.Sort permutes its argument (it only swaps elements): an item present before the call is present after it] got == 1 ==> exists j int :: 0 <= j && j < len(result) && result[j] == theItem
+//@ end
 //@ noclose resultCh errorCh
 //@ requires [ctx] !isnil(ctx) && wfDatasetFull(this) && k <= 4294967295
+//@ ensures [C09 k-best-of-what-was-received] isnil(ret1) && got == 1 ==> (exists j int :: 0 <= j && j < len(ret0) && ret0[j] == theItem) || (forall j int :: 0 <= j && j < len(ret0) ==> !(theItem.Score < ret0[j].Score))
+//@ ensures [C09 as-many-as-possible] isnil(ret1) ==> len(ret0) == minInt(k, totalItems)
 //@ ensures [all-consulted] isnil(ret1) ==> real == spawned && spawned == len(partitionIds)
 //@ ensures [never-nil-nil] isnil(ret1) ==> !isnil(ret0)
 //@ ensures [atmostk] isnil(ret1) ==> len(ret0) <= k
@@ -692,6 +731,7 @@ var _ uuid.UUID
 //@ invariant [searchable] forall j int :: 0 <= j && j < len(partitions) ==> searchable(partitions[j])
 //@ loop 3
 //@ invariant [consumed] real == i && 0 <= i && i <= len(partitions) && spawned == len(partitions) && len(partitions) == len(partitionIds) && fresh(result)
+//@ invariant [C09 candidates-so-far] totalItems >= 0 && len(result) == totalItems && (got == 0 || got == 1) && (got == 1 ==> 0 <= gPos && gPos < len(result) && result[gPos] == theItem)
 
 // ---------------------------------------------------------------------------------------------
 // C11: truthful acknowledgements
